@@ -58,6 +58,19 @@ pub tracked struct TW {
 pub struct StdDuration { _p: u8 }
 #[verifier::external_body]
 pub struct SystemTime { _p: u8 }
+impl SystemTime {
+    // the wall clock (any answer): present so that a body that consults it stays within reach
+    #[verifier::external_body]
+    pub fn now() -> (r: SystemTime) { unimplemented!() }
+}
+impl PartialEq for SystemTime {
+    #[verifier::external_body]
+    fn eq(&self, other: &Self) -> (r: bool) { unimplemented!() }
+}
+impl PartialOrd for SystemTime {
+    #[verifier::external_body]
+    fn partial_cmp(&self, other: &Self) -> (r: Option<core::cmp::Ordering>) { unimplemented!() }
+}
 pub uninterp spec fn wire_duration_s(d: StdDuration) -> Duration;
 pub uninterp spec fn wire_instant_s(t: SystemTime) -> Instant;
 // ASSUMED (proved in unit T: From<std::time::Duration> for Duration, From<SystemTime> for Instant)
